@@ -8,7 +8,9 @@ import (
 	"os"
 	"path/filepath"
 	"strings"
+	"syscall"
 	"testing"
+	"time"
 
 	wt "github.com/hnakamur/whispertool"
 	"github.com/hnakamur/whispertool/cmd"
@@ -38,6 +40,60 @@ type C08Case struct {
 	// MustFail: "" | "bad-archive" | "missing-source": the copy has to be refused; a destination that did
 	// not exist is then either still absent or a valid file with the requested layout and no points
 	MustFail string `json:"must_fail,omitempty"`
+	// Contended: a glob copy (default window) at the REAL clock over two files; the first destination's lock is
+	// held for over two steps, and the second source has a point one step after the start of the run
+	Contended *Layout `json:"contended,omitempty"`
+}
+
+// runC08Contended: every file of a glob copy is copied up to ITS OWN now, so a source point that appeared
+// before the second file was read must arrive in the destination.
+func runC08Contended(l Layout, ev *Evid) (fs []Finding) {
+	dir := scratchDir()
+	defer os.RemoveAll(dir)
+	now := time.Now().Unix()
+	spec := FileSpec{L: l, Fill: minI64(l.Archives[0].Points, 20), FillBase: 1}
+	for _, side := range []string{"src", "dest"} {
+		for _, n := range []string{"a.wsp", "b.wsp"} {
+			if err := buildFile(filepath.Join(dir, side, n), spec, now); err != nil {
+				return []Finding{{Property: "C08", Key: "setup", Detail: err.Error()}}
+			}
+		}
+	}
+	st := l.Archives[0].Step
+	late := alignDown(now, st) + st
+	if err := modifyFile(filepath.Join(dir, "src", "b.wsp"), []SlotWrite{{Arch: 0, T: late, V: 77}}, late+st); err != nil {
+		return []Finding{{Property: "C08", Key: "setup", Detail: err.Error()}}
+	}
+	hold := time.Duration(2*st)*time.Second + 300*time.Millisecond
+	held, release := make(chan struct{}), make(chan struct{})
+	go func() {
+		fd, err := syscall.Open(filepath.Join(dir, "dest", "a.wsp"), syscall.O_RDONLY, 0)
+		if err == nil {
+			syscall.Flock(fd, syscall.LOCK_EX)
+		}
+		close(held)
+		time.Sleep(hold)
+		if err == nil {
+			syscall.Close(fd)
+		}
+		close(release)
+	}()
+	<-held
+	cc := &cmd.CopyCommand{SrcBase: filepath.Join(dir, "src"), SrcRelPath: "*.wsp", DestBase: filepath.Join(dir, "dest"), AggregationMethod: wt.AggregationMethod(l.Method), XFilesFactor: l.XFF,
+		ArchiveInfoList: wtArchives(l), ArchiveID: cmd.ArchiveIDAll, TextOut: ""}
+	var err error
+	pm := guard(func() { err = cc.Execute() })
+	<-release
+	if pm != "" || err != nil {
+		return []Finding{{Property: "C08", Key: "copy-error", Detail: fmt.Sprintf("contended glob copy failed: %v %s", err, pm)}}
+	}
+	end := time.Now().Unix()
+	r, rerr := readArchives(filepath.Join(dir, "dest", "b.wsp"), l, late-st, late, end)
+	if rerr != nil || r[0].Nil || len(r[0].S.Values) < 1 || r[0].S.From != late || r[0].S.Values[0] != 77 {
+		return []Finding{{Property: "C08", Key: "slot-not-copied", Detail: fmt.Sprintf("glob copy (%s, default window) whose first file took %v: the second source file has the value 77 at t=%d (%d s after the start of the run, before that file was copied), the destination has %v (err %v)", l, hold, late, late-now, r[0].S.Values, rerr)}}
+	}
+	ev.Count(uint64(now), true, "lock-contended-glob-late-slot")
+	return nil
 }
 
 func layoutsEqualArchives(a, b Layout) bool {
@@ -163,6 +219,9 @@ func buildDest(path string, p CopyPair, srcPath string, now int64) (bool, error)
 }
 
 func runC08(c C08Case, ev *Evid) (fs []Finding) {
+	if c.Contended != nil {
+		return runC08Contended(*c.Contended, ev)
+	}
 	add := func(key, format string, args ...interface{}) {
 		fs = append(fs, Finding{Property: "C08", Key: key, Detail: fmt.Sprintf(format, args...)})
 	}
@@ -690,5 +749,9 @@ func TestC08(t *testing.T) {
 		Assumptions: []string{"+0 vs -0 is not distinguished (Z4)", "slots where the source has no value are unconstrained without copy-nan", "realistic clocks 2017-2030"},
 		Gen:         genC08,
 		Run:         runC08,
+		Fixed: func() []C08Case {
+			l := Layout{Archives: []Arch{{Step: 1, Points: 60}, {Step: 60, Points: 60}}, Method: 1, XFF: 0.5}
+			return []C08Case{{Contended: &l}}
+		},
 	})
 }
